@@ -83,8 +83,14 @@ type delivered struct {
 }
 
 func startCollector(proto string, mode collector.DecodingMode) (*collector.CollectingProcess, *delivered, func()) {
+	return startCollectorBuf(proto, mode, 65535)
+}
+
+// startCollectorBuf: MaxBufferSize is the size of the UDP read buffer; over TCP a message is
+// delimited by its own length field and the setting must not matter.
+func startCollectorBuf(proto string, mode collector.DecodingMode, maxBuf uint16) (*collector.CollectingProcess, *delivered, func()) {
 	cp, err := collector.InitCollectingProcess(collector.CollectorInput{
-		Address: "127.0.0.1:0", Protocol: proto, MaxBufferSize: 65535, DecodingMode: mode,
+		Address: "127.0.0.1:0", Protocol: proto, MaxBufferSize: maxBuf, DecodingMode: mode,
 	})
 	if err != nil {
 		panic(err)
@@ -156,7 +162,12 @@ func waitConns(cp *collector.CollectingProcess, n int64, ceiling time.Duration) 
 
 // c11Run runs one case against a fresh collector.
 func c11Run(stream []byte, cuts []int) string {
-	cp, d, stop := startCollector("tcp", collector.DecodingModeStrict)
+	// a TCP collector configured with a small MaxBufferSize (every third stream, by its size)
+	maxBuf := uint16(65535)
+	if len(stream)%3 == 0 {
+		maxBuf = 512
+	}
+	cp, d, stop := startCollectorBuf("tcp", collector.DecodingModeStrict, maxBuf)
 	defer stop()
 	addr := cp.GetAddress().String()
 	conn, err := net.Dial("tcp", addr)
@@ -316,6 +327,10 @@ func runC11(env *Env) {
 					body = append(append(append(body, r.Bytes(4)...), byte(len(v))), v...)
 				}
 				return c11DataMsg(1, seq, 258, body)
+			case "DVlong": // one record whose octetArray value is 600..1500 bytes (3-byte length prefix)
+				v := r.Bytes(600 + r.Intn(900))
+				body := append(append(r.Bytes(4), 255, byte(len(v)>>8), byte(len(v))), v...)
+				return c11DataMsg(1, seq, 258, body)
 			case "XVtrunc": // the variable-length field announces more bytes than the set holds
 				body := append(append(r.Bytes(4), 9), r.Bytes(3)...)
 				return c11DataMsg(1, seq, 258, body)
@@ -357,7 +372,7 @@ func runC11(env *Env) {
 			}
 			panic(kind)
 		}
-		valid := []string{"T", "D", "D", "T2", "D2", "D", "TV", "DV", "DV"}
+		valid := []string{"T", "D", "D", "T2", "D2", "D", "TV", "DV", "DV", "DVlong"}
 		invalid := []string{"Xver", "Xnotpl", "Xshort", "Xbadtpl", "Lzero", "XVtrunc"}
 		lying := []string{"Llong", "Lshort"}
 		var lastLens []int
